@@ -180,11 +180,16 @@ impl KalmanState {
         // measurement noise's contribution to difference uncertainty increases.
         let weight = 1.0 - noise.determinant() / difference_covariance.determinant();
 
+        // Joseph form of the covariance update: unlike (I - KH)P it stays positive
+        // semi-definite when the gain rounds to 1 (prior variance >> measurement noise).
+        let residual_transform = Matrix::unit() - update_strength * measurement;
+
         (
             KalmanState {
                 state: self.state + update_strength * difference,
-                uncertainty: ((Matrix::unit() - update_strength * measurement) * self.uncertainty)
-                    .symmetrize(),
+                uncertainty: (residual_transform * self.uncertainty * residual_transform.transpose()
+                    + update_strength * noise * update_strength.transpose())
+                .symmetrize(),
                 time: self.time,
             }
             .correct_periodicity(period),
